@@ -41,13 +41,13 @@ type Case struct {
 
 var allKinds = []string{kPlain, kPlainBad, kEmpty, kGzip, kGzip2, kTruncGz, kCorruptGz, kBadCrcGz, kFakeGz, kSubdir, kMissing}
 
-var allForms = []string{fPaths, fGlob, fRecursive, fRecursivePaths, fTwice, fDirAsFile, fDash, fNone}
+var allForms = []string{fPaths, fGlob, fRecursive, fRecursivePaths, fTwice, fDirAsFile, fDash, fNone, fDashFirst}
 
 var variants = []string{"filter", "histo"}
 
 // enumerate trees: all sequences of kinds of length 0..maxEntries
-func enumTrees(maxEntries int, f func(kinds []string) bool) {
-	for n := 0; n <= maxEntries; n++ {
+func enumTrees(minEntries, maxEntries int, f func(kinds []string) bool) {
+	for n := minEntries; n <= maxEntries; n++ {
 		idx := make([]int, n)
 		for {
 			kinds := make([]string, n)
@@ -74,6 +74,8 @@ func enumTrees(maxEntries int, f func(kinds []string) bool) {
 
 func formApplies(form string, kinds []string) bool {
 	switch form {
+	case fDashFirst:
+		return len(kinds) >= 1
 	case fDash, fNone:
 		// standard input carries the bytes of the single entry; trees with
 		// more entries add nothing to these forms
@@ -154,11 +156,49 @@ func worker(w *runner.W) {
 		}
 	}
 
-	enumTrees(maxEntries, func(kinds []string) bool {
+	stop := false
+	enumTrees(0, maxEntries, func(kinds []string) bool {
 		for _, form := range allForms {
 			if !formApplies(form, kinds) {
 				continue
 			}
+			caseNo++
+			if !w.Owns(caseNo) {
+				continue
+			}
+			if w.Expired() {
+				stop = true
+				return false
+			}
+			if e.hangs >= 3 {
+				w.Cap("enumeration stopped after 3 hanging processes in one worker")
+				stop = true
+				return false
+			}
+			dir, t := e.workdir(kinds)
+			for _, variant := range variants {
+				if form == fDashFirst && variant != "filter" {
+					continue // sources are only visible in the filter output
+				}
+				for _, z := range []bool{false, true} {
+					for _, readers := range []int{1, 2} {
+						c := Case{Variant: variant, Kinds: kinds, Form: form, Gunzip: z, Readers: readers}
+						w.SetCase(func() any { return c })
+						e.runCase(dir, t, c)
+					}
+				}
+			}
+			os.RemoveAll(dir)
+		}
+		return true
+	})
+	if w.Quick() || stop {
+		return
+	}
+	// thorough: additionally every tree with 4 entries, for the filter command
+	// with -z and the three forms that name every entry
+	enumTrees(4, 4, func(kinds []string) bool {
+		for _, form := range []string{fPaths, fGlob, fRecursive} {
 			caseNo++
 			if !w.Owns(caseNo) {
 				continue
@@ -171,14 +211,10 @@ func worker(w *runner.W) {
 				return false
 			}
 			dir, t := e.workdir(kinds)
-			for _, variant := range variants {
-				for _, z := range []bool{false, true} {
-					for _, readers := range []int{1, 2} {
-						c := Case{Variant: variant, Kinds: kinds, Form: form, Gunzip: z, Readers: readers}
-						w.SetCase(func() any { return c })
-						e.runCase(dir, t, c)
-					}
-				}
+			for _, readers := range []int{1, 2} {
+				c := Case{Variant: "filter", Kinds: kinds, Form: form, Gunzip: true, Readers: readers}
+				w.SetCase(func() any { return c })
+				e.runCase(dir, t, c)
 			}
 			os.RemoveAll(dir)
 		}
@@ -286,6 +322,30 @@ func (e *env) runCase(dir string, t *tree, c Case) {
 		// the statement says nothing about this combination
 		w.Outcome(c.Variant, "refused-z-stdin")
 		return
+	}
+
+	if exp.anyRefusalOK {
+		if res.exit == 2 && strings.TrimSpace(res.stdout) == "" && strings.TrimSpace(res.stderr) != "" {
+			w.Outcome(c.Variant, "refused-dash-with-paths")
+			return
+		}
+		// dedicated signature: the path arguments after `-` are not read at all
+		pathSeen, pathDue := false, false
+		for _, in := range exp.inputs {
+			if in.src == "<stdin>" {
+				continue
+			}
+			if len(in.lines) > 0 || in.fails {
+				pathDue = true
+			}
+			if strings.Contains(res.stdout, in.src+":") || strings.Contains(res.stderr, in.src) {
+				pathSeen = true
+			}
+		}
+		if pathDue && !pathSeen {
+			report(pre+"dash-first/path-arguments-not-read", "`-` followed by path arguments: only standard input was read, the path arguments were neither read nor refused (\"Each path argument ... is opened and read exactly once per mention\")")
+			return
+		}
 	}
 
 	var obsKey string
@@ -552,7 +612,8 @@ func main() {
 		Rule: func(prop, tier string) string {
 			return "real rare binary, one process per case: every directory tree t/ with 0..3 entries (ordered, named e0..e2) over the kinds {" + strings.Join(allKinds, ", ") +
 				"} (1+11+121+1331 trees; a subdir entry holds in.log and sub/deep.log) x argument forms {" + strings.Join(allForms, ", ") +
-				"} (paths: every entry by name; glob: t/*; recursive: -R t; recursive-paths: -R with every entry by name; twice: every entry named twice; dir-as-file: t itself then every entry; dash/none: standard input carrying the bytes of the single entry, trees of <=1 file entries only) x -z {off,on} x --readers=--workers {1,2} x command {filter -e '{src}:{line}:{0}' (every line printed), histogram -m '" + histoRegex + "' -e {1} -e {2} --csv}; " +
+				"} (paths: every entry by name; glob: t/*; recursive: -R t; recursive-paths: -R with every entry by name; twice: every entry named twice; dir-as-file: t itself then every entry; dash/none: standard input carrying the bytes of the single entry, trees of <=1 file entries only; dash-first: `-` followed by every entry, filter only) x -z {off,on} x --readers=--workers {1,2} x command {filter -e '{src}:{line}:{0}' (every line printed), histogram -m '" + histoRegex + "' -e {1} -e {2} --csv}; " +
+				map[string]string{"quick": "", "thorough": "thorough adds every tree with 4 entries (14641) x forms {paths, glob, recursive} x filter x -z x --readers {1,2}; "}[tier] +
 				"standard input always comes from a file (a sentinel line when it must not be read). Oracle: multiset of source:line:text (filter) / exported counts (histogram) against an independent reference, exit status, error mention on stderr. Plus helpers.DetermineErrorState over {0,1,2}^3 (and a nil aggregator). non-trivial = at least one named input exists in the reference (a case whose inputs are all absent only checks the exit status)"
 		},
 		Assumptions: func(string) []string {
@@ -561,6 +622,7 @@ func main() {
 				"-z together with standard input: the up-front refusal (exit 2, no output) is accepted as well as reading the bytes undecoded; the statement is silent",
 				"a glob without any expansion (t/* on an empty tree): exit 1 or 2 accepted, the statement is silent",
 				"a truncated or corrupt gzip stream under -z: any prefix of the decodable lines is accepted (the last one possibly cut short), but the failure must be reported and the exit status must be 2",
+				"`-` followed by path arguments: reading standard input and every path, or refusing the command line (exit 2, nothing on stdout, a message on stderr) are both accepted",
 				"file names contain no glob metacharacters and no colon",
 			}
 		},
